@@ -43,6 +43,62 @@ def _run(cmd, log, timeout, mem_gb=12, cwd=None):
     return rc, out, time.time() - t0
 
 
+def _decisive(out):
+    try:
+        j = json.loads(out.decode(errors="replace"))
+    except Exception:
+        return False
+    for el in j:
+        if "result" in el:
+            return not any(r.get("status") == "ERROR" for r in el["result"])
+    return False
+
+
+def _portfolio(cb, variants, log, timeout, mem_gb):
+    import tempfile
+    t0 = time.time()
+    procs = []
+    with open(log, "ab") as lf:
+        for name, flags in variants:
+            cmd = cb + flags
+            lf.write(("\n$ [portfolio:" + str(name) + "] " + " ".join(cmd) + "\n").encode()); lf.flush()
+            of = tempfile.TemporaryFile()
+            p = subprocess.Popen(cmd, stdout=of, stderr=subprocess.DEVNULL, preexec_fn=_limits(mem_gb))
+            procs.append((name, p, of))
+    winner, wout, wrc = None, b"", "timeout"
+    last_out, last_rc = b"", "timeout"
+    try:
+        while time.time() - t0 < timeout:
+            alive = False
+            for name, p, of in procs:
+                if p.poll() is None:
+                    alive = True
+                    continue
+                if getattr(p, "_seen", False):
+                    continue
+                p._seen = True
+                of.seek(0); out = of.read()
+                last_out, last_rc = out, p.returncode
+                if _decisive(out):
+                    winner, wout, wrc = name, out, p.returncode
+                    break
+            if winner or not alive:
+                break
+            time.sleep(0.2)
+    finally:
+        for name, p, of in procs:
+            if p.poll() is None:
+                try:
+                    os.killpg(p.pid, 9)
+                except ProcessLookupError:
+                    pass
+                p.wait()
+            of.close()
+    if winner is None:
+        return last_rc, last_out, time.time() - t0, None
+    return wrc, wout, time.time() - t0, winner
+
+
 def run_harness(h, srcs, workdir, incdirs, defines=(), tag="main", timeout=120, mem_gb=12):
     """h: harness dict. Returns dict(status, obligations[], solver_s, cmds[], log)."""
     name = h["name"]
@@ -90,13 +146,14 @@ def run_harness(h, srcs, workdir, incdirs, defines=(), tag="main", timeout=120, 
         cb += ["--unwind", str(h["unwind"]), "--unwinding-assertions"]
     for k, v in h.get("unwindset", {}).items():
         cb += ["--unwindset", f"{k}:{v}"]
-    solver = h.get("solver")
-    if solver == "cadical":
-        cb += ["--sat-solver", "cadical"]
-    elif solver in ("cvc5", "z3"):
-        cb += ["--" + solver]
-    elif solver == "kissat":
-        cb += ["--external-sat-solver", "kissat"]
+    def solver_flags(solver):
+        if solver == "cadical":
+            return ["--sat-solver", "cadical"]
+        if solver in ("cvc5", "z3"):
+            return ["--" + solver]
+        if solver == "kissat":
+            return ["--external-sat-solver", "kissat"]
+        return []
     cb += ["--object-bits", str(h.get("object_bits", 12))]
     if h.get("slice_formula", True):
         cb += ["--slice-formula"]
@@ -119,7 +176,15 @@ def run_harness(h, srcs, workdir, incdirs, defines=(), tag="main", timeout=120, 
         for i in ids:
             cb += ["--property", i]
     to = h.get("timeout", timeout)
-    rc, out, dt = _run(cb, log, to, mem_gb)
+    solver = h.get("solver")
+    if isinstance(solver, (list, tuple)):
+        # portfolio: the same query on several back ends at once; the first decisive answer (parsable result, no ERROR status) wins
+        rc, out, dt, won = _portfolio(cb, [(sv, solver_flags(sv)) for sv in solver], log, to, mem_gb)
+        res["backend_won"] = won
+        cb = cb + solver_flags(won or solver[0])
+    else:
+        cb += solver_flags(solver)
+        rc, out, dt = _run(cb, log, to, mem_gb)
     res["cmds"].append(" ".join(cb))
     res["solver_s"] = round(dt, 2)
     res["wall_s"] = round(time.time() - t0, 2)
